@@ -186,6 +186,17 @@ def c14(run):
     q = run.tier == "quick"
     _parser(run, "Parser.minus.cfg" if q else "Parser.thorough.cfg",
             [] if q else ["Parser.mc4minus.cfg"], "Parser state graph (alphabet with '-')")
+    # the integer / bool prefix parse of every type (the Parser graph above only carries parse_u8 / parse_i8 /
+    # parse_bool): the ParseInt vectors through Parser::parse_* and parse_with! only, and recorded long inputs
+    src, only = vec("C14-ParseInt.ndjson"), vec("C14-ParseInt-parser.ndjson")
+    run.mc("MC_ParseInt", "ParseInt.quick.cfg", env={"OUT": src}, heap="8g", timeout=3000)
+    with open(only, "w") as f:
+        for l in open(src):
+            r = json.loads(l)
+            r["only_parser"] = 1
+            f.write(json.dumps(r) + "\n")
+    run.replay([only], "ParseInt vectors through the Parser")
+    run.record_and_validate("ParseInt", "Trace_ParseInt", "Trace_ParseInt.cfg", n_files=2 if q else 8, n_events=4000)
 
 
 # ------------------------------------------------------------------------------------------- C16
